@@ -29,6 +29,7 @@ def REQUIRED(tier):  # noqa: N802
     return {"compositions_checked": 119 if tier == "quick" else 270,
             "decodes": 3000, "dropped_games": 200, "odd_n_decodes": 300,
             "gameplan_object_decodes": 500, "big_n_decodes": 8,
+            "concurrent_game_decodes": 2000,
             "long_narrow_plan_decodes": 16,
             "suite_runs": 1,
             "contract_map_games_evaluated": 1000}
@@ -41,6 +42,13 @@ SUITE_DOMAINS = ['ttp']
 
 
 def plan(tier: str, seed: int):
+    # plus a thread-stress shard (vlib/threads.py)
+    return _plan_nothreads(tier, seed) + [
+        {"name": "threads", "engine": "jit", "timeout": 3000,
+         "args": {"mode": "threads", "n": 4 if tier == "quick" else 60}}]
+
+
+def _plan_nothreads(tier: str, seed: int):
     rounds = 1 if tier == "quick" else 6
     return _plan(tier, seed) + [
         {"name": f"suite{i}", "engine": "jit", "timeout": 3000,
@@ -346,7 +354,52 @@ def selftest_model():
     assert got == [[2, -1], [-2, 1]]
 
 
+def threads_shard(ctx, args):
+    """map_games / search_space_for_n_and_rounds from several threads, each
+    with its own arrays."""
+    from moptipy.utils.nputils import int_range_to_dtype
+
+    from moptipyapps.ttp.game_encoding import (
+        map_games,
+        search_space_for_n_and_rounds,
+    )
+    from vlib.threads import stress
+    rng = ctx.rng
+    for _ in range(args["n"]):
+        n = int(rng.choice([4, 5, 8, 12, 20]))
+        r = int(rng.choice([1, 2, 3]))
+        sp = search_space_for_n_and_rounds(n, r)
+        bp = [int(v) for v in sp.blueprint]
+        days = (n - 1) * r
+        perms = []
+        for _k in range(8):
+            p = list(bp)
+            rng.shuffle(p)
+            perms.append(p)
+        ref = [model_decode(n, days, p)[0] for p in perms]
+        ref.append(sorted(bp))
+        dt = int_range_to_dtype(-n, n)
+
+        def jobs_for(tid):
+            y = np.zeros((days, n), dt)
+            xs = [np.array(p, sp.dtype) for p in perms]
+
+            def dec(x):
+                y.fill(7)
+                map_games(x, y)
+                return [[int(v) for v in row] for row in y]
+            jobs = [lambda x=x: dec(x) for x in xs]
+            jobs.append(lambda: sorted(int(v) for v in
+                                       search_space_for_n_and_rounds(
+                                           n, r).blueprint))
+            return jobs
+        if not stress(ctx, "game_decodes", jobs_for, ref,
+                      lambda a, b: a == b, loops=30):
+            return
+
 def run_shard(ctx, args):
+    if args.get("mode") == "threads":
+        return threads_shard(ctx, args)
     selftest_model()
     if args["mode"] == "comp":
         for n in range(2, args["nmax"] + 1):
